@@ -148,6 +148,7 @@ func TestC16(t *testing.T) {
 	// Known finding F2 (keyLen <= 0 / overflow-sized keyLen panics through pbkdf2): replay the witnesses.
 	_, f2Listed := ev.IsKnownFinding("F2")
 	f2Present := false
+	var witnessFailure error
 	for _, w := range []c16Args{{[]byte("p"), []byte("s"), 16, 1, 1, 0}, {[]byte("p"), []byte("s"), 16, 1, 1, -1}, {nil, nil, 2, 1, 1, c16MaxDK + 1}} {
 		viol, isF2, _ := c16Check(w, nil)
 		if viol == nil {
@@ -159,8 +160,9 @@ func TestC16(t *testing.T) {
 			c.Known("F2 " + viol.Error())
 			continue
 		}
-		c.Violation(viol.Error(), "")
-		t.Fatalf("VF-VIOLATION: property=C16 %v", viol)
+		// not listed as a finding: the generated search and the grid below have to derive it themselves;
+		// the witness is only re-reported at the very end as a safety net.
+		witnessFailure = viol
 	}
 
 	rapid.Check(t, func(rt *rapid.T) {
@@ -310,4 +312,8 @@ func TestC16(t *testing.T) {
 		}
 	}
 	c.Exhaustive("grid N(15 values) x r,p in -2..3 x keyLen in -5..5 (this shard)", n)
+	if witnessFailure != nil {
+		c.Violation(witnessFailure.Error(), "")
+		t.Fatalf("VF-VIOLATION: property=C16 %v", witnessFailure)
+	}
 }
